@@ -43,11 +43,12 @@ type Case struct {
 	Instants     []int64           `json:"instants"`
 }
 
-var smallBundled = []string{"testpic_2s", "testpic_alt_seg_dur_stl", "bbb_hevc_ac3_8s", "testpic_6s"}
+// (the two WAVE vectors end in the same directory name and share the representation id "1")
+var smallBundled = []string{"testpic_2s", "testpic_alt_seg_dur_stl", "bbb_hevc_ac3_8s", "testpic_6s", "WAVE/vectors/cfhd_sets/12.5_25_50/t3/2022-10-17", "WAVE/vectors/cfhd_sets/14.985_29.97_59.94/t1/2022-10-17"}
 
 func genCase(t *rapid.T) Case {
 	var c Case
-	nb := rapid.IntRange(1, 2).Draw(t, "nbundled")
+	nb := rapid.IntRange(1, 3).Draw(t, "nbundled")
 	perm := rapid.Permutation(smallBundled).Draw(t, "perm")
 	c.Bundled = append(c.Bundled, perm[:nb]...)
 	nl := rapid.IntRange(0, 2).Draw(t, "nlayouts")
@@ -55,6 +56,23 @@ func genCase(t *rapid.T) Case {
 		l := assetgen.Gen(t, assetgen.Opts{AllowText: true, AllowThumb: true, MinFrames: 10, MaxFrames: 60})
 		l.TfhdDur = rapid.Bool().Draw(t, "tfhd-defaults") // sample durations as tfhd defaults instead of trun entries
 		l.ASCodecs = rapid.IntRange(0, 2).Draw(t, "as-codecs") == 0 // @codecs on the AdaptationSet instead of the Representation
+		// a second video representation of the same duration on another clock (its own adaptation set): must be admitted
+		for _, grp := range [][]assetgen.Clock{{{Timescale: 1000, FrameDur: 40}, {Timescale: 12800, FrameDur: 512}, {Timescale: 25000, FrameDur: 1000}, {Timescale: 90000, FrameDur: 3600}},
+			{{Timescale: 15360, FrameDur: 512}, {Timescale: 90000, FrameDur: 3000}}} {
+			var others []assetgen.Clock
+			mine := false
+			for _, ck := range grp {
+				if ck.Timescale == l.VTimescale && ck.FrameDur == l.VFrameDur {
+					mine = true
+				} else {
+					others = append(others, ck)
+				}
+			}
+			if mine && rapid.IntRange(0, 2).Draw(t, "second-video-clock") == 0 {
+				ck := rapid.SampledFrom(others).Draw(t, "v2clock")
+				l.V2Timescale, l.V2FrameDur = ck.Timescale, ck.FrameDur
+			}
+		}
 		l.TrexStale = l.TfhdDur && l.Audio != "" && rapid.Bool().Draw(t, "trex-stale") // ... and an init segment whose trex default disagrees with them
 		if l.Form == "number" && len(l.VSegFrames) >= 2 && len(l.ASegFrames) != 1 {
 			l.ShortMPD = rapid.Bool().Draw(t, "short-mpd") // a second MPD describing the same representations with fewer segments
@@ -126,7 +144,7 @@ func genCase(t *rapid.T) Case {
 	nd := rapid.IntRange(0, 3).Draw(t, "ndamage")
 	for i := 0; i < nd && len(reps) > 0; i++ {
 		r := rapid.SampledFrom(reps).Draw(t, "damaged-rep")
-		c.Damages = append(c.Damages, Damage{Asset: r.asset, Rep: r.rep, Kind: rapid.SampledFrom([]string{"absent", "plain-json", "truncated", "garbage", "wrong-schema", "empty", "trailing-junk", "field-type", "bad-media-uri", "bitflip", "bitflip", "bitflip"}).Draw(t, "damage"), At: rapid.IntRange(0, 1<<20).Draw(t, "at")})
+		c.Damages = append(c.Damages, Damage{Asset: r.asset, Rep: r.rep, Kind: rapid.SampledFrom([]string{"absent", "plain-json", "stale-plain-beside-gz", "truncated", "garbage", "wrong-schema", "empty", "trailing-junk", "field-type", "bad-media-uri", "bitflip", "bitflip", "bitflip"}).Draw(t, "damage"), At: rapid.IntRange(0, 1<<20).Draw(t, "at")})
 	}
 	for i := 0; i < 3; i++ {
 		c.Instants = append(c.Instants, int64(rapid.SampledFrom([]int{20_000, 100_000, 1_000_000, 1_700_000_000}).Draw(t, "base"))*1+int64(rapid.IntRange(0, 20000).Draw(t, "off")))
@@ -249,7 +267,7 @@ func checkCase(c Case, work string) (*hx.Violation, info) {
 			continue // no cache file for this representation (e.g. asset not loadable)
 		}
 		inf.damaged++
-		if d.Kind != "plain-json" {
+		if d.Kind != "plain-json" && d.Kind != "stale-plain-beside-gz" {
 			damagedAssets[d.Asset] = true
 		}
 		switch d.Kind {
@@ -264,6 +282,24 @@ func checkCase(c Case, work string) (*hx.Violation, info) {
 			plain, _ := io.ReadAll(zr)
 			_ = os.Remove(p)
 			_ = os.WriteFile(strings.TrimSuffix(p, ".gz"), plain, 0o644)
+		case "stale-plain-beside-gz":
+			// an older, uncompressed copy (one segment fewer) lies next to the intact compressed file: the compressed one counts
+			zr, err := gzip.NewReader(bytes.NewReader(orig))
+			if err != nil {
+				return hx.V("harness", "%v", err), inf
+			}
+			plain, _ := io.ReadAll(zr)
+			var doc map[string]any
+			if err := json.Unmarshal(plain, &doc); err != nil {
+				return hx.V("harness", "%v", err), inf
+			}
+			for k, v := range doc {
+				if l, ok := v.([]any); ok && len(l) >= 2 {
+					doc[k] = l[:len(l)-1]
+				}
+			}
+			stale, _ := json.Marshal(doc)
+			_ = os.WriteFile(strings.TrimSuffix(p, ".gz"), stale, 0o644)
 		case "truncated":
 			_ = os.WriteFile(p, orig[:len(orig)/2], 0o644)
 		case "garbage":
@@ -492,7 +528,7 @@ func checkCase(c Case, work string) (*hx.Violation, info) {
 			}
 			for _, name := range admissible {
 				if !bytes.Contains(rs.Body, []byte(name)) {
-					return hx.V("harness", "scanning server does not list %s", name), inf
+					return hx.V("admissible-asset-left-out", "/assets of the scanning server does not list %s, whose loop is a whole number of ms and whose representations agree in duration", name), inf
 				}
 				if !bytes.Contains(rl.Body, []byte(name)) && !damagedAssets[name] {
 					return hx.V("asset-missing-from-cache-server", "/assets of the cache-loaded server does not list %s although its cache is intact", name), inf
